@@ -85,6 +85,20 @@ where
     }
 }
 
+impl<F: Future> Drop for JoinAll<F> {
+    fn drop(&mut self) {
+        // An output entry is init exactly when its future has completed, which is
+        // when the corresponding slot in the queue is vacant. Once `poll` has
+        // returned `Ready` the buffer has been taken and this loop is empty.
+        for (i, out) in self.output.iter_mut().enumerate() {
+            if self.queue.tasks.get(i).is_none() {
+                // SAFETY: slot `i` is vacant, so `output[i]` was written by `poll`
+                unsafe { out.assume_init_drop() };
+            }
+        }
+    }
+}
+
 impl<F: Future> Future for JoinAll<F> {
     type Output = Vec<F::Output>;
 
